@@ -73,6 +73,18 @@ def supGTree : GTree → Bool
   | .grp s => flatParts s.parts
   | .op _ l r => supGTree l && supGTree r
 
+/-- `supported` without its last conjunct (two same-symbol single nested statements that contain
+    logical operators): on this class the only known failure is a reordering of those statements -/
+def supportedUpToDup (s : Stmt) : Bool :=
+  let ps := s.parts
+  ps.all (fun p => match p with
+    | .ann .. => true
+    | .filler _ => true
+    | .nested _ inner => supNestedS inner
+    | .ncomb _ t => supNTree t
+    | .pairs t => supGTree t)
+  && (ps.filter Part.isPairs).length ≤ 1
+
 /-- top level -/
 def supported (s : Stmt) : Bool :=
   let ps := s.parts
